@@ -11,7 +11,7 @@ VERIF = os.path.dirname(os.path.dirname(os.path.abspath(__file__)))
 REPO = "/repo"
 GOENV = dict(os.environ, GOFLAGS="-mod=mod", GOPROXY="off", GOSUMDB="off", GOTOOLCHAIN="local",
              GOCACHE="/tmp/gocache-iso")  # scratch worktrees get their own build cache: it is wiped with them (the shared one grew to 114 GB)
-W = "/tmp/harmw"
+W = os.environ.get("HARMW", "/tmp/harmw")   # several workers: one directory (and one results file, HARMRES) each
 IDS = ["C%02d" % i for i in range(1, 21)]
 
 
@@ -29,7 +29,7 @@ def run(names):
     if not os.path.exists(os.path.join(verif, "lean", ".lake")):
         sh(["rsync", "-a", "--exclude", ".git", "--exclude", "replays", "--exclude", "mutants", "--exclude", "seeded", VERIF + "/", verif + "/"])
     sh("git -C %s archive HEAD -- . ':!seeded' ':!mutants' | tar -x -C %s" % (VERIF, verif))
-    rp = os.path.join(VERIF, "harmless", "results.json")
+    rp = os.environ.get("HARMRES", os.path.join(VERIF, "harmless", "results.json"))
     res = json.load(open(rp)) if os.path.exists(rp) else {}
     for n in names:
         sh(["git", "-C", repo, "checkout", "--", "."]); sh(["git", "-C", repo, "clean", "-fdq"]); sh(["git", "-C", repo, "checkout", "--detach", head])
